@@ -378,8 +378,13 @@ INFO = {
                    "all-but-one; thorough: every subset) of its documented optional keyword arguments, values symbolic; "
                    "the device overwrites the data-in buffer during execute with a response whose payload is symbolic; "
                    "z3 decides that arguments (or defaults) sit at the standard's CDB positions and that cmd.result "
-                   "equals, term by term, an independent decode of the device-written bytes.",
-    "functions": ["SCSI.<38 facade methods>", "converter.get_opcode", "SCSICommand.unmarshall", "every unmarshall_datain "
+                   "equals, term by term, an independent decode of the device-written bytes. A device whose execute raises "
+                   "(TypeError, ValueError, OSError, AttributeError, KeyError, RuntimeError, a foreign exception) still "
+                   "receives exactly one command and the caller sees that exception. The same call over the library's "
+                   "SCSIDevice and ISCSIDevice on the stub bindings: one binding call, carrying the very cdb/dataout/"
+                   "datain objects of the returned command (allocation length symbolic), result decoded from what the "
+                   "binding left in the buffer.",
+    "functions": ["SCSI.<38 facade methods>", "SCSI.execute", "SCSIDevice.execute", "ISCSIDevice.execute", "converter.get_opcode", "SCSICommand.unmarshall", "every unmarshall_datain "
                   "reached through the facade"],
     "bounds": {"device data": "one small well-formed response per command, payload bytes symbolic (<= 64 bytes)",
                "kwargs": "documented optional arguments parsed from the docstrings of the current scsi.py"},
